@@ -50,7 +50,8 @@ type synInput struct {
 	Part    string   `json:"part"`  // "synthetic"
 	Notes   string   `json:"notes"` // names of the layouts, comma separated
 	Layouts []layout `json:"layouts"`
-	Mode    string   `json:"mode"` // scan | load-only | write | read | rewrite | read-damaged
+	Before  []layout `json:"before,omitempty"` // history cases: the version of the assets of the first write run
+	Mode    string   `json:"mode"`             // scan | load-only | write | read | rewrite | read-damaged
 	Damage  *damage  `json:"damage,omitempty"`
 }
 
@@ -337,6 +338,85 @@ func applyDamage(dir string, d damage) error {
 		zw := gzip.NewWriter(&buf)
 		_ = zw.Close()
 		return os.WriteFile(p, buf.Bytes(), 0o644)
+	case "type-error", "stale-init", "stale-media", "stale-empty", "stale-timescale":
+		kind, _ := cacheObs(dir, d.Asset, d.Rep)
+		if kind != "data" {
+			return fmt.Errorf("no data")
+		}
+		raw, err := os.ReadFile(p)
+		if err != nil {
+			return err
+		}
+		zr, err := gzip.NewReader(bytes.NewReader(raw))
+		if err != nil {
+			return err
+		}
+		js, err := io.ReadAll(zr)
+		if err != nil {
+			return err
+		}
+		var m map[string]any
+		if err := json.Unmarshal(js, &m); err != nil {
+			return err
+		}
+		image := m["contentType"] == "image"
+		segs, _ := m["segments"].([]any)
+		switch d.Kind {
+		case "type-error": // valid gzip, valid JSON, one field of the wrong JSON type
+			switch d.Offset % 6 {
+			case 0:
+				m["preEncrypted"] = "false"
+			case 1:
+				m["mediaTimescale"] = "90000"
+			case 2:
+				m["id"] = 5
+			case 3:
+				m["defaultSampleDuration"] = -1
+			case 4:
+				if len(segs) == 0 {
+					return fmt.Errorf("no segments")
+				}
+				segs[len(segs)-1].(map[string]any)["nr"] = -1
+			case 5:
+				if len(segs) == 0 {
+					return fmt.Errorf("no segments")
+				}
+				segs[0].(map[string]any)["startTime"] = 0.5
+			}
+		case "stale-init": // file of an earlier packaging: its init segment is gone
+			if image {
+				return fmt.Errorf("not for images")
+			}
+			m["initURI"] = "gone/init.mp4"
+		case "stale-media": // media template without identifier
+			m["mediaURI"] = d.Rep + "/seg.m4s"
+		case "stale-empty": // other timescale, init gone, no segments
+			if image {
+				return fmt.Errorf("not for images")
+			}
+			m["initURI"] = "gone/init.mp4"
+			m["segments"] = []any{}
+			if ts, ok := m["mediaTimescale"].(float64); ok {
+				m["mediaTimescale"] = ts / 2
+			}
+		case "stale-timescale": // other timescale and default duration, init gone, table kept
+			if image {
+				return fmt.Errorf("not for images")
+			}
+			m["initURI"] = "gone/init.mp4"
+			if ts, ok := m["mediaTimescale"].(float64); ok {
+				m["mediaTimescale"] = ts * 2
+			}
+			m["defaultSampleDuration"] = 7
+			m["mpdTimescale"] = 3
+			m["codecs"] = "stale"
+		}
+		out, _ := json.Marshal(m)
+		var buf bytes.Buffer
+		zw := gzip.NewWriter(&buf)
+		_, _ = zw.Write(out)
+		_ = zw.Close()
+		return os.WriteFile(p, buf.Bytes(), 0o644)
 	case "plain", "plain-garbage":
 		kind, s := cacheObs(dir, d.Asset, d.Rep)
 		if kind != "data" {
@@ -507,6 +587,9 @@ func (s *synRunner) runLayouts(ls []layout, rng *rand.Rand, nDamage int, only *s
 		}
 	}
 	sort.Strings(keys)
+	if only == nil || strings.HasPrefix(only.Mode, "history") || strings.Contains(only.Mode, "write-over-damaged") {
+		s.histories(ls, fsys, mpds, scan, files1, keys, dir, rng, base, only)
+	}
 	if len(keys) == 0 {
 		return
 	}
@@ -514,7 +597,8 @@ func (s *synRunner) runLayouts(ls []layout, rng *rand.Rand, nDamage int, only *s
 	if only != nil && only.Damage != nil {
 		dmgs = []damage{*only.Damage}
 	} else {
-		kinds := []string{"delete", "truncate", "flip", "plain", "plain-garbage", "empty-gz", "truncate", "flip", "delete-all", "gz-of-nothing"}
+		kinds := []string{"delete", "truncate", "flip", "plain", "plain-garbage", "empty-gz", "truncate", "flip", "delete-all", "gz-of-nothing",
+			"type-error", "type-error", "stale-init", "stale-media", "stale-empty", "stale-timescale"}
 		for i := 0; i < nDamage; i++ {
 			k := keys[rng.Intn(len(keys))]
 			asset, file := filepath.Dir(k), filepath.Base(k)
@@ -528,6 +612,8 @@ func (s *synRunner) runLayouts(ls []layout, rng *rand.Rand, nDamage int, only *s
 				}
 			case "flip":
 				d.Offset = rng.Intn(n)
+			case "type-error":
+				d.Offset = rng.Intn(6)
 			}
 			dmgs = append(dmgs, d)
 		}
@@ -551,6 +637,142 @@ func (s *synRunner) runLayouts(ls []layout, rng *rand.Rand, nDamage int, only *s
 			c.Fail(id, "damaged-cache:"+kind+":"+sym, fmt.Sprintf("cache file of %s/%s damaged (%s, loader sees it as %s): %s", d.Asset, d.Rep, d.Kind, kind, what), in)
 		}
 		_ = os.RemoveAll(ddir)
+	}
+}
+
+// changedVersion is a later version of the same assets: every representation with at least two
+// segments lost its last one (files, and one segment of the SegmentTimeline).
+func changedVersion(ls []layout) []layout {
+	out := make([]layout, len(ls))
+	for i, l := range ls {
+		nl := l
+		nl.MPDs = make([]mpdSpec, len(l.MPDs))
+		for j, m := range l.MPDs {
+			nm := m
+			nm.Sets = make([]asSpec, len(m.Sets))
+			for k, as := range m.Sets {
+				na := as
+				na.Reps = make([]repSpec, len(as.Reps))
+				for q, r := range as.Reps {
+					nr := r
+					if len(r.Segs) >= 2 {
+						nr.Segs = append([]segSpec{}, r.Segs[:len(r.Segs)-1]...)
+					}
+					na.Reps[q] = nr
+				}
+				if as.HasTimeline && len(as.Timeline) > 0 {
+					tl := append([]sEntry{}, as.Timeline...)
+					if tl[len(tl)-1].R > 0 {
+						tl[len(tl)-1].R--
+					} else if len(tl) > 1 {
+						tl = tl[:len(tl)-1]
+					}
+					na.Timeline = tl
+				}
+				nm.Sets[k] = na
+			}
+			nl.MPDs[j] = nm
+		}
+		out[i] = nl
+	}
+	return out
+}
+
+// histories runs sequences of server starts over ONE metadata directory: write over damaged files,
+// and write / asset changes / write again / read-only.
+func (s *synRunner) histories(ls []layout, fsys fs.FS, mpds string, scan runOut, files1 map[string][]byte, keys []string, dir string, rng *rand.Rand, base func(string, *damage) synInput, only *synInput) {
+	c := s.c
+	// 7. a write run over a damaged directory refreshes every file; a read-only start then equals the scan
+	if len(keys) > 0 {
+		kinds := []string{"truncate", "flip", "type-error", "stale-timescale", "stale-empty", "plain-garbage", "empty-gz"}
+		k := keys[rng.Intn(len(keys))]
+		d := damage{Kind: kinds[rng.Intn(len(kinds))], Asset: filepath.Dir(k), Rep: strings.TrimSuffix(filepath.Base(k), "_data.json.gz")}
+		switch d.Kind {
+		case "truncate":
+			d.Offset = len(files1[k]) / 2
+		case "flip":
+			d.Offset = rng.Intn(len(files1[k]))
+		case "type-error":
+			d.Offset = rng.Intn(6)
+		}
+		if only != nil && only.Damage != nil && strings.Contains(only.Mode, "write-over-damaged") {
+			d = *only.Damage
+		}
+		hdir := dir + "_h"
+		_ = os.RemoveAll(hdir)
+		writeTree(hdir, files1)
+		if applyDamage(hdir, d) == nil {
+			c.Count("history:write-over-" + d.Kind)
+			wr := discover(fsys, hdir, true)
+			in := base("write-over-damaged", &d)
+			id := s.emit(in, fsys, mpds, hdir, hdir, true, true, wr)
+			after := readTree(hdir)
+			for k, v := range files1 {
+				if string(after[k]) != string(v) {
+					c.Fail(id, "history:write-does-not-refresh:"+d.Kind, fmt.Sprintf("write run over a directory whose file %s was damaged (%s): afterwards the file has %d bytes, a write run into an empty directory gives %d bytes", k, d.Kind, len(after[k]), len(v)), in)
+					break
+				}
+			}
+			rd := discover(fsys, hdir, false)
+			in = base("read-after-write-over-damaged", &d)
+			id = s.emit(in, fsys, mpds, hdir, hdir, false, true, rd)
+			if rd.panic == "" && servedView(rd.assets) != servedView(scan.assets) {
+				sym, what := describeDiff(scan.assets, rd.assets)
+				c.Fail(id, "history:read-after-write:"+sym, "read-only start after a write run over damaged files differs from scan: "+what, in)
+			}
+		}
+		_ = os.RemoveAll(hdir)
+	}
+	// 8. write (version 1), the asset changes, write again (version 2), read-only start
+	ls2 := changedVersion(ls)
+	fsys2 := renderAll(ls2)
+	mpds2 := fmt.Sprintf("L%d", s.nDefs)
+	s.nDefs++
+	fmt.Fprintf(&s.defs, "Definition %s : mpd_list :=\n %s.\n", mpds2, mpdListTerm(fsys2, ls2))
+	base2 := func(mode string) synInput {
+		in := base(mode, nil)
+		return in
+	}
+	scan2 := discover(fsys2, "", false)
+	if scan2.panic != "" {
+		return
+	}
+	hdir, fdir := dir+"_h2", dir+"_f2"
+	_ = os.RemoveAll(hdir)
+	_ = os.RemoveAll(fdir)
+	defer os.RemoveAll(hdir)
+	defer os.RemoveAll(fdir)
+	writeTree(hdir, files1)
+	_ = os.MkdirAll(fdir, 0o755)
+	c.Count("history:write-change-write-read")
+	w2 := discover(fsys2, hdir, true)
+	in := base2("history-write")
+	in.Layouts = ls2
+	in.Before = ls
+	id := s.emit(in, fsys2, mpds2, hdir, hdir, true, true, w2)
+	wf := discover(fsys2, fdir, true)
+	_ = wf
+	filesH, filesF := readTree(hdir), readTree(fdir)
+	leftover := false
+	for k := range filesH {
+		if _, ok := filesF[k]; !ok {
+			leftover = true
+		}
+	}
+	for k, v := range filesF {
+		if string(filesH[k]) != string(v) {
+			c.Fail(id, "history:write-does-not-refresh:changed-asset", fmt.Sprintf("write run after the asset changed: file %s has %d bytes, a write run into an empty directory gives %d bytes", k, len(filesH[k]), len(v)), in)
+			break
+		}
+	}
+	rd2 := discover(fsys2, hdir, false)
+	in = base2("history-read")
+	in.Layouts = ls2
+	in.Before = ls
+	id = s.emit(in, fsys2, mpds2, hdir, hdir, false, true, rd2)
+	if !leftover && rd2.panic == "" && servedView(rd2.assets) != servedView(scan2.assets) {
+		sym, what := describeDiff(scan2.assets, rd2.assets)
+		c.Fail(id, "history:cache-serves-old-asset:"+sym, "write, asset changed, write again, read-only start: differs from a scanning server over the current asset: "+what, in)
 	}
 }
 
@@ -583,7 +805,7 @@ func runC15(c *lib.Ctx) error {
 
 	// Part S: structured layouts one by one, then random ones, then groups (several assets in one tree)
 	structured := structuredLayouts()
-	nDamage, nRandom, nGroups := 3, 110, 10
+	nDamage, nRandom, nGroups := 4, 80, 8
 	if c.Thorough() {
 		nDamage, nRandom, nGroups = 9, 2000, 150
 	}
@@ -658,7 +880,11 @@ func replayC15(c *lib.Ctx, scratch string) error {
 		return err
 	}
 	s := &synRunner{c: c, scratch: scratch, admit: map[string]int{}}
-	s.runLayouts(si.Layouts, rand.New(rand.NewSource(c.Seed)), 0, &si)
+	start := si.Layouts
+	if si.Before != nil {
+		start = si.Before
+	}
+	s.runLayouts(start, rand.New(rand.NewSource(c.Seed)), 0, &si)
 	s.flush(true)
 	for _, f := range c.Res.OracleFailures {
 		fmt.Printf("replay C15: %s: %s\n", f.Key, f.What)
